@@ -10,6 +10,8 @@
                             q must be the question the statement names for `check`, and (d, e) is the
                             table's entry (any number of questions, in any order - a sequential or
                             short-circuiting implementation satisfies the statement as well)
+       AskCancelled(check, q) the implementation cancelled the context of a question before it was answered
+                            (the authorizer then answers "no opinion" + error, whatever its table says)
        Result(allowed)      allowed  <=>  table[getTier] = Allow /\ (table[policy] = Allow \/ table[wildcard] = Allow)
    A data-race report of the race detector is an event no action accepts.                         *)
 EXTENDS Naturals, Sequences
@@ -40,6 +42,14 @@ Ask(check, q, d, e) ==
     /\ check \in Checks
     /\ q = Question(req, check)
     /\ table[check] = [d |-> d, e |-> e]
+    /\ UNCHANGED vars
+\* The implementation cancelled the question's context before the authorizer answered it: the authorizer
+\* then gives no answer from its table (a webhook returns "no opinion" with the context's error).  That
+\* is the implementation's own doing, so the verdict is still judged against the table.
+AskCancelled(check, q) ==
+    /\ phase = "called"
+    /\ check \in Checks
+    /\ q = Question(req, check)
     /\ UNCHANGED vars
 Result(allowed) ==
     /\ phase = "called"
